@@ -19,7 +19,7 @@ from extract import Unsupported, LostAnchor
 
 REPO = os.environ.get('VERIF_REPO', '/repo')
 SCRATCH_ROOT = os.environ.get('VERIF_SCRATCH', '/var/tmp')
-VERUS_RLIMIT = os.environ.get('VERIF_VERUS_RLIMIT', '60')
+VERUS_RLIMIT = os.environ.get('VERIF_VERUS_RLIMIT', '150')
 NPROC = os.cpu_count() or 8
 
 
@@ -144,10 +144,23 @@ def verus_unit(name, g, rec, scratch, seed, with_lemmas):
     open(path, 'w').write(g.text())
     cmd, summary, diags, wall, raw = run_verus(path, seed)
     failed = attribute(g, diags)
+    retries = []
+    if failed:
+        # A proof found under ANY solver seed is a proof; a real violation fails under every seed.  So a row only counts as failed if it
+        # fails under three different seeds (this removes solver-seed instability as a source of false alarms, soundly).
+        for extra_seed in (seed + 7919, seed + 104729):
+            _, s2, d2, w2, _ = run_verus(path, extra_seed)
+            f2 = attribute(g, d2)
+            retries.append(dict(seed=extra_seed, failed=sorted(f2)))
+            wall += w2
+            failed = {r: m for r, m in failed.items() if r in f2}
+            if not failed:
+                summary = s2
+                break
     vr = summary.get('verification-results', {})
     if vr.get('encountered-vir-error'):
         raise Undecided('verus: VIR error (generated file does not compile): ' + raw[-1500:])
-    if not failed and not vr.get('success', False) and vr.get('errors', 0) == 0:
+    if not failed and not retries and not vr.get('success', False) and vr.get('errors', 0) == 0:
         raise Undecided('verus did not succeed and reported no verification error: ' + raw[-1500:])
     if not failed and (vr.get('verified', 0) == 0):
         raise Undecided('verus verified nothing (obligation count is zero)')
@@ -157,7 +170,7 @@ def verus_unit(name, g, rec, scratch, seed, with_lemmas):
             times[f['function']] = dict(ms=f['time-micros'] // 1000, rlimit=f.get('rlimit'), ok=f.get('success'))
     # vacuity guard: the `ensures false` twin of every extracted function must be REJECTED
     vac = vacuity_twin(g, scratch, seed, name)
-    return dict(g=g, rec=rec, failed=failed, summary=vr, wall=wall, cmd=' '.join(cmd), times=times, vacuity=vac,
+    return dict(g=g, rec=rec, failed=failed, summary=vr, wall=wall, cmd=' '.join(cmd), times=times, vacuity=vac, seed_retries=retries,
                 smt_ms=summary.get('times-ms', {}).get('smt', {}).get('total'))
 
 
@@ -170,7 +183,7 @@ def verus_layer(repo, scratch, seed, tier, pid):
         if pid in table.SLOTS_PROPS:
             import gen_slots
             g2, rec2 = gen_slots.generate(repo)
-            units['slots'] = verus_unit('slots', g2, rec2, scratch, seed, False)
+            units['slots'] = verus_unit('slots', g2, rec2, scratch, seed, True)
     except LostAnchor as e:
         raise Undecided('lost anchor: %s (a function the contracts speak about no longer exists under that name)' % e)
     except Unsupported as e:
@@ -375,7 +388,7 @@ def write_evidence(pid, tier, seed, mine, myfailed, knownhits, violations, res, 
         cov['verus'] = {}
         for un, v in res['verus']['units'].items():
             cov['verus'][un] = dict(verified=v['summary'].get('verified'), errors=v['summary'].get('errors'), wall_s=round(v['wall'], 1), smt_ms=v.get('smt_ms'),
-                            vacuity_guard=v['vacuity'],
+                            vacuity_guard=v['vacuity'], seed_retries=v.get('seed_retries'),
                             slowest=sorted(((f, t['ms']) for f, t in v['times'].items()), key=lambda x: -x[1])[:5],
                             functions_under_contract=sorted(k for k in v['rec'].functions if not v['rec'].functions[k].get('absent')),
                             absent_functions=sorted(k for k in v['rec'].functions if v['rec'].functions[k].get('absent')),
